@@ -69,8 +69,11 @@ def long_part(run):
     beh = r.replays
     rng = random.Random(run.seed + 13)
     rng.shuffle(beh)
+    # strata: well-formed and ordered (accepted), chromosome order wrong with every line well formed, one malformed line
     valid = [b for b in beh if not b["must"]]
-    beh = valid[:60 if run.thorough else 15] + [b for b in beh if b["must"]][:600 if run.thorough else 80]
+    order = [b for b in beh if b["must"] and not b["bad"]]
+    malformed = [b for b in beh if b["bad"]]
+    beh = valid[:60 if run.thorough else 15] + order[:600 if run.thorough else 80] + malformed[:200 if run.thorough else 30]
     if sum(b["must"] for b in beh) < 20 or sum(1 - b["must"] for b in beh) < 5:
         raise ToolError("vacuity: long streams %d must-refuse of %d" % (sum(b["must"] for b in beh), len(beh)))
     tdir = cf.tools_dir()
